@@ -8,60 +8,92 @@ package simhook
 import (
 	"context"
 	"net"
+	"sync/atomic"
 )
 
 // Enabled reports whether hooks are compiled in.
 const Enabled = true
 
-var (
-	// YieldFn is called at scheduling points (no lock held by the caller).
-	YieldFn func(point, detail string)
-	// HoldFn is called at the borders of regions which sleep while holding
+type (
+	// YieldFunc is called at scheduling points (no lock held by the caller).
+	YieldFunc func(point, detail string)
+	// HoldFunc is called at the borders of regions which sleep while holding
 	// locks.
-	HoldFn func(id string, delta int)
-	// FailFn is asked whether a cooperative fault should fire at [site].
-	FailFn func(site, detail string) bool
-	// ListenFn returns a simulated listener for [addr], or nil.
-	ListenFn func(network, addr string) (net.Listener, error)
-	// DialFn returns a simulated connection to [addr], or nil.
-	DialFn func(ctx context.Context, network, addr string) (net.Conn, error)
+	HoldFunc func(id string, delta int)
+	// FailFunc is asked whether a cooperative fault should fire at [site].
+	FailFunc func(site, detail string) bool
+	// ListenFunc returns a simulated listener for [addr], or nil.
+	ListenFunc func(network, addr string) (net.Listener, error)
+	// DialFunc returns a simulated connection to [addr], or nil.
+	DialFunc func(ctx context.Context, network, addr string) (net.Conn, error)
 )
+
+var (
+	yieldFn  atomic.Pointer[YieldFunc]
+	holdFn   atomic.Pointer[HoldFunc]
+	failFn   atomic.Pointer[FailFunc]
+	listenFn atomic.Pointer[ListenFunc]
+	dialFn   atomic.Pointer[DialFunc]
+)
+
+// SetYield installs (or, with nil, removes) the scheduling-point function.
+func SetYield(f YieldFunc) { set(&yieldFn, f, f == nil) }
+
+// SetHold installs the region-border function.
+func SetHold(f HoldFunc) { set(&holdFn, f, f == nil) }
+
+// SetFail installs the fault-site function.
+func SetFail(f FailFunc) { set(&failFn, f, f == nil) }
+
+// SetListen installs the simulated listen function.
+func SetListen(f ListenFunc) { set(&listenFn, f, f == nil) }
+
+// SetDial installs the simulated dial function.
+func SetDial(f DialFunc) { set(&dialFn, f, f == nil) }
+
+func set[T any](p *atomic.Pointer[T], f T, isNil bool) {
+	if isNil {
+		p.Store(nil)
+		return
+	}
+	p.Store(&f)
+}
 
 // At is a scheduling point.
 func At(point string, detail ...string) {
-	if f := YieldFn; f != nil {
+	if f := yieldFn.Load(); f != nil {
 		d := ""
 		if len(detail) > 0 {
 			d = detail[0]
 		}
-		f(point, d)
+		(*f)(point, d)
 	}
 }
 
 // Hold marks the start (+1) or end (-1) of a region which sleeps while holding
 // locks.
 func Hold(id string, delta int) {
-	if f := HoldFn; f != nil {
-		f(id, delta)
+	if f := holdFn.Load(); f != nil {
+		(*f)(id, delta)
 	}
 }
 
 // Fail is a cooperative fault point.
 func Fail(site string, detail ...string) bool {
-	if f := FailFn; f != nil {
+	if f := failFn.Load(); f != nil {
 		d := ""
 		if len(detail) > 0 {
 			d = detail[0]
 		}
-		return f(site, d)
+		return (*f)(site, d)
 	}
 	return false
 }
 
 // Listen returns (listener, true) when the simulator owns the network.
 func Listen(network, addr string) (net.Listener, error, bool) {
-	if f := ListenFn; f != nil {
-		l, err := f(network, addr)
+	if f := listenFn.Load(); f != nil {
+		l, err := (*f)(network, addr)
 		return l, err, true
 	}
 	return nil, nil, false
@@ -69,8 +101,8 @@ func Listen(network, addr string) (net.Listener, error, bool) {
 
 // Dial returns (conn, err, true) when the simulator owns the network.
 func Dial(ctx context.Context, network, addr string) (net.Conn, error, bool) {
-	if f := DialFn; f != nil {
-		c, err := f(ctx, network, addr)
+	if f := dialFn.Load(); f != nil {
+		c, err := (*f)(ctx, network, addr)
 		return c, err, true
 	}
 	return nil, nil, false
